@@ -57,6 +57,133 @@ def ErrClass.str : ErrClass → String
 
 def Err.str (e : Err) : String := e.ns.str ++ "::" ++ e.cls.str
 
+/-- `double` values as the front end can see them: a finite (dyadic) rational or one of the three non-finite values.
+    Order and equality are IEEE-754: every comparison with `nan` is false, `-inf < finite < +inf`. -/
+inductive XReal where
+  | fin (q : Rat)
+  | nan
+  | posInf
+  | negInf
+  deriving DecidableEq, Repr, Inhabited
+
+namespace XReal
+
+def lt : XReal → XReal → Prop
+  | .fin a, .fin b => a < b
+  | .negInf, .fin _ => True
+  | .negInf, .posInf => True
+  | .fin _, .posInf => True
+  | _, _ => False
+
+def le : XReal → XReal → Prop
+  | .fin a, .fin b => a ≤ b
+  | .negInf, .fin _ => True
+  | .negInf, .posInf => True
+  | .fin _, .posInf => True
+  | .negInf, .negInf => True
+  | .posInf, .posInf => True
+  | _, _ => False
+
+/-- IEEE `==` -/
+def eqv : XReal → XReal → Prop
+  | .fin a, .fin b => a = b
+  | .negInf, .negInf => True
+  | .posInf, .posInf => True
+  | _, _ => False
+
+instance : LT XReal := ⟨lt⟩
+instance : LE XReal := ⟨le⟩
+instance (a b : XReal) : Decidable (a < b) := by
+  show Decidable (lt a b); cases a <;> cases b <;> unfold lt <;> infer_instance
+instance (a b : XReal) : Decidable (a ≤ b) := by
+  show Decidable (le a b); cases a <;> cases b <;> unfold le <;> infer_instance
+instance (a b : XReal) : Decidable (eqv a b) := by
+  cases a <;> cases b <;> unfold eqv <;> infer_instance
+
+instance : OfNat XReal n := ⟨.fin (OfNat.ofNat n)⟩
+instance : NatCast XReal := ⟨fun n => .fin (n : Rat)⟩
+instance : IntCast XReal := ⟨fun i => .fin (i : Rat)⟩
+instance : Coe Rat XReal := ⟨.fin⟩
+
+/-- arithmetic is modelled on finite operands only; an operation with a non-finite operand yields `nan`
+    (no bound expression of the front end does arithmetic on a value that an earlier check has not confined to a
+    bounded range; the correspondence grid contains non-finite values for every real keyword) -/
+def lift2 (f : Rat → Rat → Rat) : XReal → XReal → XReal
+  | .fin a, .fin b => .fin (f a b)
+  | _, _ => .nan
+
+instance : Add XReal := ⟨lift2 (· + ·)⟩
+instance : Sub XReal := ⟨lift2 (· - ·)⟩
+instance : Mul XReal := ⟨lift2 (· * ·)⟩
+instance : Div XReal := ⟨lift2 (· / ·)⟩
+instance : Neg XReal := ⟨fun | .fin a => .fin (-a) | .nan => .nan | .posInf => .negInf | .negInf => .posInf⟩
+
+/-- `static_cast<IndexType>` of a `double`: truncation toward zero -/
+def truncQ (q : Rat) : Int := Int.tdiv q.num q.den
+
+/-- … lifted: a non-finite argument is undefined behaviour in C++ and never reached (see `lift2`) -/
+def trunc : XReal → XReal
+  | .fin q => .fin (truncQ q : Rat)
+  | _ => .nan
+
+def isFinite : XReal → Bool
+  | .fin _ => true
+  | _ => false
+
+/-- the finite value, 0 for a non-finite one (only used for printing / numeric views of integer keywords) -/
+def toRat : XReal → Rat
+  | .fin q => q
+  | _ => 0
+
+end XReal
+
+/-- comparison operators of C++ -/
+inductive Cmp where
+  | gt | ge | lt | le | eq
+  deriving DecidableEq, Repr, Inhabited
+
+def Cmp.holds (c : Cmp) (a b : XReal) : Prop :=
+  match c with
+  | .gt => b < a | .ge => b ≤ a | .lt => a < b | .le => a ≤ b | .eq => XReal.eqv a b
+
+instance (c : Cmp) (a b : XReal) : Decidable (c.holds a b) := by
+  cases c <;> unfold Cmp.holds <;> infer_instance
+
+/-- the four predicate templates of tapkee/predicates.hpp -/
+inductive PredKind where
+  | positivity | nonNegativity | inRange | inClosedRange
+  deriving DecidableEq, Repr, Inhabited
+
+/-- operands of a comparison inside `operator()(T v)` of a predicate -/
+inductive PAtom where
+  | v | lower | upper | lit (q : Rat)
+  deriving DecidableEq, Repr, Inhabited
+
+/-- the returned expression of `operator()(T v)`: comparisons combined by `&&`, `||`, `!` -/
+inductive PBody where
+  | cmp (a : PAtom) (c : Cmp) (b : PAtom)
+  | and (x y : PBody)
+  | or (x y : PBody)
+  | not (x : PBody)
+  deriving DecidableEq, Repr, Inhabited
+
+def PAtom.eval (v lo hi : XReal) : PAtom → XReal
+  | .v => v | .lower => lo | .upper => hi | .lit q => .fin q
+
+def PBody.eval (v lo hi : XReal) : PBody → Prop
+  | .cmp a c b => c.holds (a.eval v lo hi) (b.eval v lo hi)
+  | .and x y => x.eval v lo hi ∧ y.eval v lo hi
+  | .or x y => x.eval v lo hi ∨ y.eval v lo hi
+  | .not x => ¬ x.eval v lo hi
+
+def PBody.decEval (v lo hi : XReal) : (b : PBody) → Decidable (b.eval v lo hi)
+  | .cmp a c b => by unfold PBody.eval; infer_instance
+  | .and x y => by unfold PBody.eval; exact @instDecidableAnd _ _ (decEval v lo hi x) (decEval v lo hi y)
+  | .or x y => by unfold PBody.eval; exact @instDecidableOr _ _ (decEval v lo hi x) (decEval v lo hi y)
+  | .not x => by unfold PBody.eval; exact @instDecidableNot _ (decEval v lo hi x)
+
+instance (v lo hi : XReal) (b : PBody) : Decidable (b.eval v lo hi) := PBody.decEval v lo hi b
+
 /-- calls a `tapkee_method_handle(X)` block makes on the implementation object -/
 inductive DispatchStep where
   | validate | embed
